@@ -393,6 +393,15 @@ impl Prop for C12 {
         for inmemory in [true, false] {
             v.push(Case::Grid { inmemory, max_writes: tier.pick(4, 4) });
         }
+        // several megabytes staged before the switch lands between two writes, and at the other positions
+        for big in [5_000_000u32, 9_000_000] {
+            for inmemory in [true, false] {
+                for pos in 0..=3u8 {
+                    v.push(Case::Seq { inmemory, sizes: vec![big, 10], program: Program::SwitchAwait { pos }, prefix: 3, cap: 0 });
+                }
+                v.push(Case::Seq { inmemory, sizes: vec![big, 10], program: Program::LenThenClosedWrite, prefix: 3, cap: 0 });
+            }
+        }
         // round byte totals, as one write and as two, under every consumer program
         for total in [4096u32, 8192, 16_384, 32_768, 65_536, 131_072, 8000, 10_000, 16_000, 32_000, 64_000, 100_000, 128_000, 192_000] {
             for inmemory in [true, false] {
